@@ -630,7 +630,7 @@ theorem Emits.stmtPre (p : P) (hw : W p) (neg : Bool) :
 
 
 /-- the terminator `stmtEnd` writes, if any -/
-theorem Emits.stmtEnd (p : P) (hw : W p) (ha : AfterWord p) (hws : p.wroteSemi = false) (semi : Pos) (bg : Bool) :
+theorem Emits.stmtEnd (p : P) (hw : W p) (ha : AfterWord p) (semi : Pos) (bg : Bool) :
     ∃ term : Term, (p.stmtEnd semi bg).sum.toks = p.sum.toks ++ term.toks ∧ W (p.stmtEnd semi bg) ∧
       Same' p (p.stmtEnd semi bg) ∧ (p.stmtEnd semi bg).wantSpace = .required ∧ (p.stmtEnd semi bg).sum.sk = false ∧
       (p.stmtEnd semi bg).wroteSemi = (term != .none) ∧ (bg = true → term = .amp) ∧ (bg = false → term ≠ .amp) ∧
@@ -703,21 +703,33 @@ theorem Emits.stmtEnd (p : P) (hw : W p) (ha : AfterWord p) (hws : p.wroteSemi =
       cases bg with
       | false => rfl
       | true => simp at hc
-    obtain ⟨hd, hdw⟩ := Quiet.decLevel hi.w
-    have hq := hi.trans hd
-    refine ⟨.none, by simp [Term.toks, hq.toks], hq.w, hq.same.weak, by rw [hdw, hiw]; exact ha.ws,
-      by rw [hq.sk]; exact ha.sk, by rw [hq.same.wsemi, hws]; rfl, ?_, ?_, fun _ _ => rfl, fun _ => ?_, fun _ _ => rfl⟩
+    let q0 : P := { p.incLevel with wroteSemi := false }
+    have hw0 : W q0 := ⟨hi.w.ok, hi.w.gap⟩
+    have hs0 : q0.sum = p.incLevel.sum := P.sum_same _ _ rfl
+    obtain ⟨hd, hdw⟩ := Quiet.decLevel hw0
+    show ∃ term : Term, q0.decLevel.sum.toks = p.sum.toks ++ term.toks ∧ W q0.decLevel ∧
+      Same' p q0.decLevel ∧ q0.decLevel.wantSpace = .required ∧ q0.decLevel.sum.sk = false ∧
+      q0.decLevel.wroteSemi = (term != .none) ∧ (bg = true → term = .amp) ∧ (bg = false → term ≠ .amp) ∧
+      (p.o.singleLine = true → bg = false → term = .none) ∧
+      (term = .none → ∃ parts, q0.decLevel.sum.last = some (.word parts)) ∧
+      (semi.valid = false → bg = false → term = .none)
+    have hsame : Same' p q0.decLevel :=
+      (hi.same.weak.trans (⟨rfl, rfl, rfl, rfl⟩ : Same' p.incLevel q0)).trans hd.same.weak
+    refine ⟨.none, by rw [hd.toks, hs0, hi.toks]; simp [Term.toks], hd.w, hsame,
+      by rw [hdw]; exact hiw.trans ha.ws,
+      by rw [hd.sk, hs0, hi.sk]; exact ha.sk, by rw [hd.same.wsemi]; rfl, ?_, ?_, fun _ _ => rfl, fun _ => ?_,
+      fun _ _ => rfl⟩
     · intro h; rw [hbg] at h; cases h
     · intro _; simp
     obtain ⟨parts, hl⟩ := ha.last
     refine ⟨parts, ?_⟩
-    have e1 : p.incLevel.decLevel.sum = p.incLevel.sum := by
+    have e1 : q0.decLevel.sum = q0.sum := by
       unfold P.decLevel; split <;> exact P.sum_same _ _ rfl
     have e2 : p.incLevel.sum = p.sum := by
       unfold P.incLevel; split
       · exact P.sum_same _ _ rfl
       · split <;> exact P.sum_same _ _ rfl
-    rw [e1, e2]; exact hl
+    rw [e1, hs0, e2]; exact hl
 
 
 /-! ## A statement that is a simple command -/
@@ -745,7 +757,7 @@ theorem Emits.stmt_call (p : P) (hw : W p) (pos semi : Pos) (neg bg : Bool) (arg
     · unfold P.spacedString P.spacePad
       split <;> rfl
     · rfl
-  obtain ⟨term, e1, e2, e3, e4, e5, e6, e7, e8, e9, e10, _⟩ := Emits.stmtEnd _ c1.w c2 hws semi bg
+  obtain ⟨term, e1, e2, e3, e4, e5, e6, e7, e8, e9, e10, _⟩ := Emits.stmtEnd _ c1.w c2 semi bg
   refine ⟨term, ?_, e2, (h3.trans c1.same.weak).trans e3, e4, e5, e6, e7, e8, ?_, e10⟩
   · rw [e1, c1.toks, h1]
     simp [List.append_assoc]
@@ -1530,7 +1542,7 @@ theorem lin_stmt : ∀ (s : Stmt), s.lin = true → s.wf = true → ∀ (p : P),
     obtain ⟨h1, h2, h3, _⟩ := Emits.stmtPre p hw neg
     obtain ⟨lc, hc⟩ := lin_cmd cmd hclin hcwf (p.stmtPre neg) h2 (stmtPre_wroteSemi p neg)
     have hws : ((p.stmtPre neg).command cmd).wroteSemi = false := hc.wsemi (stmtPre_wroteSemi p neg)
-    obtain ⟨term, e1, e2, e3, e4, e5, e6, e7, e8, e9, e10, e11⟩ := Emits.stmtEnd _ hc.adv.w hc.after hws semi bg
+    obtain ⟨term, e1, e2, e3, e4, e5, e6, e7, e8, e9, e10, e11⟩ := Emits.stmtEnd _ hc.adv.w hc.after semi bg
     refine ⟨.mk neg lc term, ?_⟩
     have hamp : (term == Term.amp) = bg := by
       cases bg with
